@@ -182,6 +182,10 @@ func (e *Variable) Assign(newVal reflect.Value, dataContext IDataContext, memory
 		if err == nil {
 			dataContext.IncrementVariableChangeCount()
 			memory.ResetVariable(e)
+			if e.Variable.ValueNode.IsMap() {
+				// the member of a JSON object is the same place as Parent["name"]
+				memory.ResetSelectorsOf(e.Variable)
+			}
 		}
 
 		return err
